@@ -71,9 +71,11 @@ const (
 	ModField
 	ModAllFields
 	ModElems
+	ModAllOfType // every object of a type: all T.f / all T.*
 )
 
 type ModTarget struct {
+	TypeName string
 	Kind  ModKind
 	Base  Expr
 	Field string
@@ -95,6 +97,14 @@ type FuncContract struct {
 	Line     int
 	Ghost    []GhostAssign
 	Trusted  bool // assumed contract on a dependency (never proved here)
+	// assumptions made right after a named call returns (listed in the evidence as assumptions)
+	AssumeAfter []CallAssume
+}
+
+type CallAssume struct {
+	Key string
+	Cl  Clause
+	Why string
 }
 
 type GhostAssign struct {
@@ -486,7 +496,7 @@ func (p *parser) primary() Expr {
 
 // ---- contract file reader
 
-var stmtKeywords = map[string]bool{"iface": true, "package": true, "ghost": true, "pred": true, "def": true, "func": true, "requires": true, "ensures": true,
+var stmtKeywords = map[string]bool{"assume_after": true, "iface": true, "package": true, "ghost": true, "pred": true, "def": true, "func": true, "requires": true, "ensures": true,
 	"modifies": true, "loop": true, "lemma": true, "axiom": true, "opt": true, "inline": true, "pure": true, "use": true}
 
 func readContractFile(path, pkg string) (*ContractFile, error) {
@@ -657,6 +667,19 @@ func readContractFile(path, pkg string) (*ContractFile, error) {
 				default:
 					return nil, fail(fmt.Errorf("loop <n> invariant|decreases"))
 				}
+			case "assume_after":
+				// assume_after "key" label: expr
+				r := strings.TrimSpace(rest)
+				if !strings.HasPrefix(r, "\"") {
+					return nil, fail(fmt.Errorf("assume_after \"call key\" label: expr"))
+				}
+				k := strings.Index(r[1:], "\"")
+				key := r[1 : 1+k]
+				cl, err := parseClause(strings.TrimSpace(r[k+2:]))
+				if err != nil {
+					return nil, fail(err)
+				}
+				cur.AssumeAfter = append(cur.AssumeAfter, CallAssume{Key: key, Cl: cl})
 			case "inline":
 				cur.Inline = true
 			case "pure":
@@ -739,6 +762,14 @@ func parseModTarget(s string) (*ModTarget, error) {
 	s = strings.TrimSpace(s)
 	if s == "*" {
 		return &ModTarget{Kind: ModAll, Src: s}, nil
+	}
+	if strings.HasPrefix(s, "all ") {
+		r := strings.TrimSpace(s[4:])
+		k := strings.LastIndex(r, ".")
+		if k < 0 {
+			return nil, fmt.Errorf("all T.field or all T.*")
+		}
+		return &ModTarget{Kind: ModAllOfType, TypeName: r[:k], Field: r[k+1:], Src: s}, nil
 	}
 	e, err := parseExpr(s)
 	if err != nil {
